@@ -9,6 +9,7 @@
 #include <sstream>
 #include "hcommon.h"
 #include "rng.h"
+#include "watchdog.h"
 
 using namespace Vector::BLF;
 
@@ -28,6 +29,7 @@ static int run_c15(uint64_t seed, long from, long to) {
     std::string sample;
     for (long it = from; it < to; it++) {
         hc::begin_case(std::to_string(it));
+        wd::arm(10, "c15-history");
         Rng r(Rng::mix(seed, (uint64_t)it));
         UncompressedFile u; ByteModel m;
         uint32_t c = 1 + r.below(64);
@@ -151,6 +153,7 @@ static int run_c16(uint64_t seed, long from, long to) {
     const uint32_t UMAX = std::numeric_limits<uint32_t>::max();
     for (long it = from; it < to; it++) {
         hc::begin_case(std::to_string(it));
+        wd::arm(10, "c16-history");
         Rng r(Rng::mix(seed ^ 0xC16, (uint64_t)it));
         std::ostringstream h; bool bad = false; uint64_t sig = 1469598103934665603ULL;
         long base_live = Tok::live;
@@ -214,6 +217,7 @@ static int run_c16(uint64_t seed, long from, long to) {
 int main(int argc, char ** argv) {
     hc::out_init();
     if (argc < 5) return 2;
+    wd::start();
     std::string mode = argv[1]; uint64_t seed = strtoull(argv[2], nullptr, 0); long from = atol(argv[3]), to = atol(argv[4]);
     if (mode == "c15") return run_c15(seed, from, to);
     if (mode == "c16") return run_c16(seed, from, to);
